@@ -4,6 +4,7 @@ package main
 
 import (
 	"fmt"
+	"go/token"
 	"go/types"
 	"sort"
 	"strings"
@@ -92,6 +93,9 @@ func failingContext(p *Program, at ssa.Instruction, depth int) bool {
 	if depth >= 2 {
 		return false
 	}
+	if deferredOnError(fn, at) {
+		return true
+	}
 	var sites []ssa.CallInstruction
 	if par := fn.Parent(); par != nil {
 		// local closure: its direct calls in the enclosing functions
@@ -135,6 +139,75 @@ func failingContext(p *Program, at ssa.Instruction, depth int) bool {
 			return false
 		}
 		if !failingContext(p, cs, depth+1) {
+			return false
+		}
+	}
+	return true
+}
+
+// deferredOnError: `at` is in the non-nil branch of a closure of the shape
+// `func() { if err != nil { ... } }` that is only ever deferred, where err is
+// the error variable of the enclosing function, and that function returns that
+// variable (or nil where the variable is known nil) at every exit: the cleanup
+// runs exactly when another, non-nil error is being returned.
+func deferredOnError(cl *ssa.Function, at ssa.Instruction) bool {
+	par := cl.Parent()
+	if par == nil {
+		return false
+	}
+	cell, _, _, ok := errGuardedClosure(cl, func(ssa.Instruction, uint64, bool) []uint64 { return nil })
+	if !ok || cell.Parent() != par {
+		return false
+	}
+	entry := cl.Blocks[0]
+	bo := entry.Instrs[len(entry.Instrs)-1].(*ssa.If).Cond.(*ssa.BinOp)
+	nonNilSucc := entry.Succs[0]
+	if bo.Op == token.EQL {
+		nonNilSucc = entry.Succs[1]
+	}
+	if len(nonNilSucc.Preds) != 1 || !(nonNilSucc == at.Block() || nonNilSucc.Dominates(at.Block())) {
+		return false
+	}
+	// only deferred
+	for _, mc := range closureSites(cl) {
+		for _, r := range *mc.Referrers() {
+			switch x := r.(type) {
+			case *ssa.Defer:
+				if x.Call.Value != ssa.Value(mc) {
+					return false
+				}
+			case *ssa.DebugRef:
+			default:
+				return false
+			}
+		}
+	}
+	// every exit of the parent returns the variable, or nil where it is nil
+	idx := errorResultIndex(par.Signature)
+	if idx < 0 {
+		return false
+	}
+	for _, ret := range returnsOf(par) {
+		if u, ok := ret.Results[idx].(*ssa.UnOp); ok && u.Op == token.MUL && u.X == ssa.Value(cell) {
+			continue // the named result itself
+		}
+		v := returnedValueRaw(ret, idx)
+		if u, ok := v.(*ssa.UnOp); ok && u.Op == token.MUL && u.X == ssa.Value(cell) {
+			continue
+		}
+		if isNilConst(v) && cellNilnessAt(cell, ret.Block()) == isNil {
+			continue
+		}
+		// a return before the defer statement is registered cannot run it
+		registered := false
+		for _, mc := range closureSites(cl) {
+			for _, r := range *mc.Referrers() {
+				if d, ok := r.(*ssa.Defer); ok && (d.Block() == ret.Block() || d.Block().Dominates(ret.Block())) {
+					registered = true
+				}
+			}
+		}
+		if registered {
 			return false
 		}
 	}
